@@ -211,6 +211,156 @@ def conditional_forms(target):
     return n
 
 
+def _stmt_blocks(target):
+    for node in list(ast.walk(target)):
+        if isinstance(node, FUNC_TYPES + (ast.ClassDef,)) and node is not target:
+            continue
+        for fld in ('body', 'orelse', 'finalbody'):
+            block = getattr(node, fld, None)
+            if isinstance(block, list) and block and isinstance(block[0], ast.stmt):
+                yield node, block
+        for h in getattr(node, 'handlers', []) or []:
+            yield h, h.body
+
+
+def split_conditions(target):
+    """`if a and b: X` (no else) -> `if a: if b: X`;  `if a or b: X` where X ends in continue/return/raise/break -> two ifs."""
+    n = 0
+    for _owner, block in _stmt_blocks(target):
+        i = 0
+        while i < len(block):
+            st = block[i]
+            if isinstance(st, ast.If) and not st.orelse and isinstance(st.test, ast.BoolOp) and len(st.test.values) == 2:
+                a, b = st.test.values
+                if isinstance(st.test.op, ast.And):
+                    block[i] = ast.copy_location(ast.If(test=a, body=[ast.If(test=b, body=st.body, orelse=[])], orelse=[]), st)
+                    n += 1
+                elif isinstance(st.body[-1], (ast.Continue, ast.Return, ast.Raise, ast.Break)) and len(st.body) == 1:
+                    import copy as _copy
+                    block[i:i + 1] = [ast.copy_location(ast.If(test=a, body=_copy.deepcopy(st.body), orelse=[]), st),
+                                      ast.copy_location(ast.If(test=b, body=st.body, orelse=[]), st)]
+                    n += 1
+                    i += 1
+            i += 1
+    return n
+
+
+def demorgan(target):
+    """not (a and b) <-> not a or not b; `if not (..)` forms only (tests of if / while / conditional expressions / comprehension filters)."""
+    n = 0
+
+    def neg(e):
+        if isinstance(e, ast.UnaryOp) and isinstance(e.op, ast.Not):
+            return e.operand
+        if isinstance(e, ast.Compare) and len(e.ops) == 1:
+            inv = {ast.Eq: ast.NotEq, ast.NotEq: ast.Eq, ast.In: ast.NotIn, ast.NotIn: ast.In, ast.Is: ast.IsNot, ast.IsNot: ast.Is}
+            if type(e.ops[0]) in inv:
+                return ast.Compare(left=e.left, ops=[inv[type(e.ops[0])]()], comparators=e.comparators)
+        return ast.UnaryOp(op=ast.Not(), operand=e)
+
+    class T(ast.NodeTransformer):
+        def visit_UnaryOp(self, node):  # noqa: N802
+            nonlocal n
+            self.generic_visit(node)
+            if isinstance(node.op, ast.Not) and isinstance(node.operand, ast.BoolOp):
+                op = ast.Or() if isinstance(node.operand.op, ast.And) else ast.And()
+                n += 1
+                return ast.copy_location(ast.BoolOp(op=op, values=[neg(v) for v in node.operand.values]), node)
+            return node
+
+        def visit_BoolOp(self, node):  # noqa: N802
+            nonlocal n
+            self.generic_visit(node)
+            if all(isinstance(v, ast.UnaryOp) and isinstance(v.op, ast.Not) for v in node.values):
+                op = ast.Or() if isinstance(node.op, ast.And) else ast.And()
+                n += 1
+                return ast.copy_location(ast.UnaryOp(op=ast.Not(), operand=ast.BoolOp(op=op, values=[v.operand for v in node.values])), node)
+            return node
+    T().visit(target)
+    return n
+
+
+def comprehension_to_loop(target):
+    """x = [e for a in b if c]  ->  x = []; for a in b: if c: x.append(e)   (list / set / dict comprehensions with one generator, assigned to a plain name)."""
+    n = 0
+    for _owner, block in _stmt_blocks(target):
+        i = 0
+        while i < len(block):
+            st = block[i]
+            if isinstance(st, ast.Assign) and len(st.targets) == 1 and isinstance(st.targets[0], ast.Name) and isinstance(st.value, (ast.ListComp, ast.SetComp, ast.DictComp)) \
+                    and len(st.value.generators) == 1 and not st.value.generators[0].is_async:
+                comp = st.value
+                name = st.targets[0].id
+                if any(isinstance(x, ast.Name) and x.id == name for x in ast.walk(comp)):
+                    i += 1
+                    continue
+                gen = comp.generators[0]
+                if isinstance(comp, ast.ListComp):
+                    init, add = ast.List(elts=[], ctx=ast.Load()), ast.Expr(value=ast.Call(func=ast.Attribute(value=ast.Name(id=name, ctx=ast.Load()), attr='append', ctx=ast.Load()), args=[comp.elt], keywords=[]))
+                elif isinstance(comp, ast.SetComp):
+                    init, add = ast.Call(func=ast.Name(id='set', ctx=ast.Load()), args=[], keywords=[]), ast.Expr(value=ast.Call(func=ast.Attribute(value=ast.Name(id=name, ctx=ast.Load()), attr='add', ctx=ast.Load()), args=[comp.elt], keywords=[]))
+                else:
+                    init, add = ast.Dict(keys=[], values=[]), ast.Assign(targets=[ast.Subscript(value=ast.Name(id=name, ctx=ast.Load()), slice=comp.key, ctx=ast.Store())], value=comp.value)
+                body = [add]
+                for cond in reversed(gen.ifs):
+                    body = [ast.If(test=cond, body=body, orelse=[])]
+                loop = ast.For(target=gen.target, iter=gen.iter, body=body, orelse=[])
+                block[i:i + 1] = [ast.copy_location(ast.Assign(targets=[ast.Name(id=name, ctx=ast.Store())], value=init), st), ast.copy_location(loop, st)]
+                n += 1
+                i += 1
+            i += 1
+    return n
+
+
+def early_return(target):
+    """a function ending in `if c: A else: B` -> `if c: A; return` followed by B (when neither arm yields and A does not fall into code after the if)."""
+    if not isinstance(target, FUNC_TYPES) or any(isinstance(x, (ast.Yield, ast.YieldFrom)) for x in ast.walk(target)):
+        return 0
+    last = target.body[-1]
+    if isinstance(last, ast.If) and last.orelse and not isinstance(last.body[-1], (ast.Return, ast.Raise)):
+        target.body[-1:] = [ast.copy_location(ast.If(test=last.test, body=last.body + [ast.Return(value=None)], orelse=[]), last)] + last.orelse
+        return 1
+    if isinstance(last, ast.If) and last.orelse and isinstance(last.body[-1], (ast.Return, ast.Raise)):
+        target.body[-1:] = [ast.copy_location(ast.If(test=last.test, body=last.body, orelse=[]), last)] + last.orelse
+        return 1
+    return 0
+
+
+def format_to_fstring(target):
+    """'..{}..{}'.format(a, b) with plain positional fields -> f-string."""
+    n = 0
+
+    class T(ast.NodeTransformer):
+        def visit_Call(self, node):  # noqa: N802
+            nonlocal n
+            self.generic_visit(node)
+            if isinstance(node.func, ast.Attribute) and node.func.attr == 'format' and isinstance(node.func.value, ast.Constant) and isinstance(node.func.value.value, str) \
+                    and not node.keywords and node.args and not any(isinstance(a, ast.Starred) for a in node.args):
+                text = node.func.value.value
+                import string
+                try:
+                    parts = list(string.Formatter().parse(text))
+                except ValueError:
+                    return node
+                if any(p[1] not in ('', None) or (p[2] or '') != '' or p[3] for p in parts) or sum(1 for p in parts if p[1] is not None) != len(node.args):
+                    return node
+                if '\\' in text or '"' in text or "'" in text:
+                    return node
+                values = []
+                k = 0
+                for lit, fld, _spec, _conv in parts:
+                    if lit:
+                        values.append(ast.Constant(value=lit))
+                    if fld is not None:
+                        values.append(ast.FormattedValue(value=node.args[k], conversion=-1, format_spec=None))
+                        k += 1
+                n += 1
+                return ast.copy_location(ast.JoinedStr(values=values), node)
+            return node
+    T().visit(target)
+    return n
+
+
 def find(body, parts):
     for st in body:
         if isinstance(st, FUNC_TYPES + (ast.ClassDef,)) and st.name == parts[0]:
@@ -257,10 +407,11 @@ def run_one(job):
                     n += 1
             if n == 0:
                 return (prop, rel, qual, kind, 'skip', [])
-        elif kind in ('hoist', 'lamdef', 'condform'):
+        elif kind in ('hoist', 'lamdef', 'condform', 'splitcond', 'demorgan', 'comp2loop', 'earlyret', 'fstring'):
             if isinstance(target, ast.ClassDef):
                 return (prop, rel, qual, kind, 'skip', [])
-            done = {'hoist': hoist, 'lamdef': lambdas_to_defs, 'condform': conditional_forms}[kind](target)
+            done = {'hoist': hoist, 'lamdef': lambdas_to_defs, 'condform': conditional_forms, 'splitcond': split_conditions, 'demorgan': demorgan,
+                    'comp2loop': comprehension_to_loop, 'earlyret': early_return, 'fstring': format_to_fstring}[kind](target)
             if done == 0:
                 return (prop, rel, qual, kind, 'skip', [])
         ast.fix_missing_locations(tree)
@@ -297,7 +448,7 @@ def main():
                 continue
             if index.mod(rel).functions.get(qual) is None:
                 continue
-            for kind in os.environ.get('FUZZ_KINDS', 'flip swap log guard hoist lamdef condform').split():
+            for kind in os.environ.get('FUZZ_KINDS', 'flip swap log guard hoist lamdef condform splitcond demorgan comp2loop earlyret fstring').split():
                 jobs.append((prop, rel, qual, kind, root))
     with multiprocessing.Pool(min(int(os.environ.get('FUZZ_JOBS', '12')), max(1, len(jobs)))) as pool:
         results = pool.map(run_one, jobs)
